@@ -773,7 +773,7 @@ theorem C11_fd_init (c : PduConfig) (ps : Params) (p : Pdu) (h : Pdu.new c ps = 
 theorem C11_fd_step_spec (p : Pdu) (s : Setter) :
     fdStep p s = if 65535 < (p.put s).calcLen then (p, some .value)
       else ({ p.put s with header := { (p.put s).header with dataFieldLen := (p.put s).calcLen } }, none) := by
-  unfold fdStep
+  unfold fdStep Pdu.step
   rw [recalc_eq]
   by_cases g : 65535 < (p.put s).calcLen
   · rw [if_pos g, if_pos g]
@@ -905,8 +905,23 @@ theorem C11_frame_step_spec (s : FrameS) :
       else ({ s with frame := { s.frame with header := .primary { h with frameLen := s.len - 1 } } }, none)) ∧
     (∀ h, s.frame.header = .truncated h → frameStep s .setFrameLen = (s, none)) := by
   refine ⟨fun d => rfl, fun h hh => ?_, fun h hh => ?_⟩
-  · simp only [frameStep, hh]
-  · simp only [frameStep, hh]
+  · simp only [frameStep, Frame.setFrameLenWith, hh]
+    by_cases g : 65535 < s.len - 1
+    · rw [if_pos g, if_pos g]; rfl
+    · rw [if_neg g, if_neg g]
+  · simp only [frameStep, Frame.setFrameLenWith, hh]
+
+/-- the frame machine's length update **is** C17's `set_frame_len_in_header` model: under the
+    invariant (cached size = size of the data field) it returns the frame that function returns, and
+    refuses (`ValueError`, state unchanged) exactly when that function refuses -/
+theorem C11_frame_set_len_is_c17 (ft : FrameType) (s : FrameS) (h : FrameInv ft s) :
+    frameStep s .setFrameLen =
+      match s.frame.setFrameLenInHeader with
+      | .ok f => ({ s with frame := f }, none)
+      | .error e => (s, some e.toErr) := by
+  have hl : s.len = s.frame.len := by unfold FrameS.len Frame.len; rw [h.1]
+  simp only [frameStep, Frame.setFrameLenInHeader, hl]
+  rfl
 
 private theorem wf_set_len {f : Frame} {ft : FrameType} (wf : C17.WFFrame f ft) (h : PrimaryHeader)
     (hh : f.header = .primary h) (n : Nat) (hn : n ≤ 65535) :
